@@ -4,7 +4,7 @@ from __future__ import annotations
 import ast
 
 from sa import source
-from sa.cfg import cfg_of, guards
+from sa.cfg import cfg_of, guards, facts, holds
 from sa.source import AnchorMissing, dotted, inline, inline_node, is_self_attr, last_attr, local_defs, params_of, short, u, walk_body
 from sa.sym import atoms_of, comparison, parse_expr, rat_equal
 
@@ -343,7 +343,7 @@ def run(chk):
     detail = ""
     if pc is not None:
         rets = [n for n in walk_body(pc) if isinstance(n, ast.Return)]
-        expl = [r for r in rets if is_self_attr(r.value) and any(pol and u(t) == f"{u(r.value)} is not None" for t, pol in guards(r))]
+        expl = [r for r in rets if is_self_attr(r.value) and holds(r, f"{u(r.value)} is not None")]
         reads_tasks = any(is_self_attr(n, "tasks") for n in walk_body(pc))
         sums = [n for n in walk_body(pc) if (isinstance(n, ast.AugAssign) and u(n.value).endswith(".clients")) or (isinstance(n, ast.Call) and dotted(n.func) == "sum")]
         ok = bool(expl) and reads_tasks and bool(sums)
